@@ -109,6 +109,8 @@ class BGP(protocol.Protocol):
         Starts the initial negotiation of the protocol
         """
         self.init_rib()
+        # the peer's capabilities are learned anew from the OPEN of this session
+        cfg.CONF.bgp.running_config['capability']['remote'] = {}
         # Set transport socket options
         self.transport.setTcpNoDelay(True)
         # set tcp option if you want
